@@ -406,7 +406,9 @@ def aggregate(pid, tier, spec, results, sdir, t0, t_build):
         res = jr["res"]
         row = {"unit": jr["unit"], "job": jr["job"], "wall_s": round(jr["wall"], 2)}
         if res is None:
-            v = crash_violation(pid, jr, sdir)
+            # a job this script killed itself at the wall-clock budget did not die of the code under
+            # test, whatever case it had announced: a cap, never a finding
+            v = None if jr["killed"] else crash_violation(pid, jr, sdir)
             if v is not None:
                 v["unit"] = jr["unit"]
                 viols.setdefault(v["key"], v)
